@@ -32,9 +32,19 @@ def closure_contains(prog, c, pred, depth=0):
     return False
 
 
-def sites(ctx, E, pred, through=None):
-    """blocks of E whose call matches pred, or that consume a closure (transitively) containing a matching call.
-    `through`: optional predicate of named callees to look through one level (wrapper helpers)."""
+def _module_of(path):
+    """module prefix of a function path: everything before the function name and an optional `Type::<..>` segment"""
+    parts = path.split("::")
+    parts = parts[:-1]
+    while parts and (parts[-1].startswith("<") or (parts[-1][:1].isupper())):
+        parts = parts[:-1]
+    return "::".join(parts)
+
+
+def sites(ctx, E, pred, through=None, _depth=0):
+    """blocks of E whose call matches pred, or that consume a closure (transitively) containing a matching call, or that call
+    a free helper function of the SAME module that contains such a site (a tail of the command extracted into
+    `fn save_repaired_snapshots(..)`): the helper's call site then stands for the step."""
     out = []
     for bb, t in E.calls():
         if pred(t):
@@ -44,6 +54,20 @@ def sites(ctx, E, pred, through=None):
             for c in tgts:
                 if closure_contains(ctx.prog, c, pred) and bb not in out:
                     out.append(bb)
+    if _depth < 2:
+        mod = _module_of(E.path)
+        for bb, t in E.calls():
+            if "callee" not in t or bb in out:
+                continue
+            c = callee(t)
+            H = ctx.prog.bodies.get(c)
+            if H is None or H.is_closure() or c == E.path or _module_of(c) != mod or "::" not in mod:
+                continue
+            # free functions only (no methods of a type: their effects are part of the rule tables already)
+            if c.rsplit("::", 1)[0] != mod:
+                continue
+            if sites(ctx, H, pred, through, _depth + 1):
+                out.append(bb)
     return sorted(set(out))
 
 
@@ -70,6 +94,9 @@ def must_precede(ctx, rep, rule, name, E, A, B, exempt_B=None, what_a="", what_b
     continuations of all `?`-propagated A-sites are removed. weak=True: only 'no path from a B-site to an A-site'."""
     a_sites = sites(ctx, E, A)
     b_sites = sites(ctx, E, B)
+    # a call that IS the visible step by name (B matches the call itself) is not also a durable step because the helper it
+    # calls happens to contain one
+    a_sites = [a for a in a_sites if A(E.term(a)) or not B(E.term(a))]
     key = f"{name}/{fn_key(E)}"
     rep.require(rule, key + "/A-present", len(a_sites) >= 1, where=E.loc(), what=f"{fn_key(E)}: durable step present ({what_a}): {len(a_sites)} site(s)")
     rep.require(rule, key + "/B-present", len(b_sites) >= 1, where=E.loc(), what=f"{fn_key(E)}: visible step present ({what_b}): {len(b_sites)} site(s)")
